@@ -213,7 +213,7 @@ func runCfg(n *node, f *frame, funcNode, callNode *node) {
 		// Do not hold the frame lock while running the deferred calls: a deferred
 		// closure defined in this function locks the same frame when it returns.
 		for _, val := range deferred {
-			val[0].Call(val[1:])
+			f.callDeferred(val)
 		}
 
 		f.mutex.Lock()
@@ -274,6 +274,20 @@ func runCfg(n *node, f *frame, funcNode, callNode *node) {
 			m = originalExecNode(m, exec)
 		}
 	}
+}
+
+// callDeferred runs a deferred call. A panic raised by the deferred function
+// replaces the current one, and does not prevent the remaining deferred
+// functions from running.
+func (f *frame) callDeferred(val []reflect.Value) {
+	defer func() {
+		if r := recover(); r != nil {
+			f.mutex.Lock()
+			f.recovered = r
+			f.mutex.Unlock()
+		}
+	}()
+	val[0].Call(val[1:])
 }
 
 func stripReceiverFromArgs(signature string) (string, error) {
